@@ -9,7 +9,8 @@ package pstore
 //
 // Four fault families, one per case mode:
 //   poison     — a valid plan whose actions all use the poison plugins; the request that cannot be serialised (channel or
-//                func behind an `any` field, NaN, failing MarshalJSON) is placed at EVERY action position of the tree in
+//                func behind an `any` field, NaN, failing MarshalJSON, a string with bytes that are not valid UTF-8) is
+//                placed at EVERY action position of the tree in
 //                turn (exhaustive per generated shape and drawn poison kinds) and the plan is submitted through
 //                coercion.Workstream.Submit on a sqlite vault. Oracle: Submit == nil  =>  Read == submitted;
 //                Submit != nil  =>  no row with that plan id in any table, Read errors, List omits it.
@@ -86,6 +87,11 @@ type AtomCase struct {
 	Big *BigParams `json:",omitempty"`
 }
 
+var poisonKindNames = map[int]string{
+	store.PoisonChan: "chan", store.PoisonFunc: "func", store.PoisonNaN: "nan", store.PoisonMarshal: "marshaljson",
+	store.PoisonUTF8High: "invalid_utf8", store.PoisonUTF8Cont: "invalid_utf8", store.PoisonUTF8Truncated: "invalid_utf8",
+}
+
 // killOneIn: one case in killOneIn is a kill experiment (≈150-250 ms each).
 const killOneIn = 160
 
@@ -115,7 +121,7 @@ func genAtomCase(t *rapid.T) AtomCase {
 		cfg.Poison = true
 		spec := cfg.Plan(t, "p", 1)
 		c.Plan = &spec
-		c.Kinds = rapid.SliceOfNDistinct(rapid.IntRange(store.PoisonChan, store.PoisonMarshal), 1, 2, rapid.ID[int]).Draw(t, "kinds")
+		c.Kinds = rapid.SliceOfNDistinct(rapid.IntRange(store.PoisonChan, store.PoisonLast), 1, 2, rapid.ID[int]).Draw(t, "kinds")
 	case "dup":
 		c.Arm = genArm(t)
 		cfg := store.DefaultCfg
@@ -267,7 +273,7 @@ func (r *c14run) poison(c AtomCase) {
 	variants := []variant{{-1, store.PoisonNone}}
 	for p := range positions {
 		for _, k := range c.Kinds {
-			if k >= store.PoisonChan && k <= store.PoisonMarshal {
+			if k >= store.PoisonChan && k <= store.PoisonLast {
 				variants = append(variants, variant{p, k})
 			}
 		}
@@ -283,6 +289,7 @@ func (r *c14run) poison(c AtomCase) {
 			poisoned = store.ResolveActionSpec(&spec, tg)
 			poisoned.Poison = v.kind
 			where = fmt.Sprintf("poison kind %d at %s", v.kind, tg)
+			res.Label("poison_kind:" + poisonKindNames[v.kind])
 			if tg.Group >= 0 {
 				res.Label("poison_in_check_group")
 				res.NonTrivial = true // NT (DESIGN §5 C14): poison in a check group ...
